@@ -57,6 +57,34 @@ func fieldPathFromRecv(v ssa.Value, recv *ssa.Parameter) (string, bool) {
 		if x.Op == token.MUL {
 			return fieldPathFromRecv(x.X, recv)
 		}
+	case *ssa.Alloc:
+		// the receiver spilled into a local cell because a closure captures it: the cell holds
+		// the receiver if the parameter is the only thing ever stored into it
+		if spilledParam(x) == ssa.Value(recv) {
+			return "", true
+		}
+	case *ssa.FreeVar:
+		// inside a closure: the captured cell of the enclosing method's receiver
+		if fn := x.Parent(); fn != nil && fn.Parent() != nil {
+			for i, fv := range fn.FreeVars {
+				if fv != x {
+					continue
+				}
+				// find the MakeClosure in the parent and look at the binding
+				for _, b := range fn.Parent().Blocks {
+					for _, in := range b.Instrs {
+						if mc, ok := in.(*ssa.MakeClosure); ok && mc.Fn == ssa.Value(fn) && i < len(mc.Bindings) {
+							if p, ok := mc.Bindings[i].(*ssa.Parameter); ok && p == recv {
+								return "", true
+							}
+							if al, ok := mc.Bindings[i].(*ssa.Alloc); ok && spilledParam(al) == ssa.Value(recv) {
+								return "", true
+							}
+						}
+					}
+				}
+			}
+		}
 	case *ssa.Field:
 		base, ok := fieldPathFromRecv(x.X, recv)
 		if !ok {
@@ -896,4 +924,26 @@ func returnsBoolConsts(fn *ssa.Function) bool {
 		}
 	}
 	return t && f
+}
+
+// spilledParam: the parameter that is the only value ever stored into the local cell (nil otherwise).
+func spilledParam(al *ssa.Alloc) ssa.Value {
+	if al.Referrers() == nil {
+		return nil
+	}
+	var only ssa.Value
+	n := 0
+	for _, r := range *al.Referrers() {
+		if st, ok := r.(*ssa.Store); ok && st.Addr == ssa.Value(al) {
+			n++
+			only = st.Val
+		}
+	}
+	if n != 1 {
+		return nil
+	}
+	if p, ok := only.(*ssa.Parameter); ok {
+		return p
+	}
+	return nil
 }
